@@ -236,6 +236,16 @@ def gen_nested_id(d, tier):
                                    else {"extends": [{idk: nested, "disallow": [X]}, Y]})),
                     ("after-nested", {"properties": {"a": {idk: nested, "items": X}, "b": {"items": Y}}}),
                 ]
+                # an id-bearing schema whose evaluation is abandoned at its first error (not / contains / if)
+                ab = {idk: nested, "type": "null", "items": X}
+                if d >= 4:
+                    wraps.append(("abandoned-id-not", {"allOf": [{"not": ab}, Y], "properties": {"b": Y}}))
+                else:
+                    wraps.append(("abandoned-id-disallow", {"extends": [{"disallow": [ab]}, Y], "properties": {"b": Y}}))
+                if d >= 6:
+                    wraps.append(("abandoned-id-contains", {"contains": ab, "items": Y, "properties": {"b": Y}}))
+                if d == 7:
+                    wraps.append(("abandoned-id-if", {"if": ab, "then": Y, "else": {"properties": {"b": Y}}}))
                 if rin.startswith("http"):
                     wraps.append(("double", {"properties": {"a": {idk: nested, "properties": {
                         "a": {idk: "deeper/", "items": X}}}, "b": Y}}))
